@@ -875,7 +875,9 @@ class BackendZ3(Backend):
         if track:
             already_tracked = {str(impl.children()[0]) for impl in s.assertions()}
             for constraint in c:
-                name = str(hash(constraint))
+                # named after the term itself (its address: the assertion keeps it alive), not after Z3's hash of it -
+                # two different constraints with the same hash would pass for one, and the second would never be asserted
+                name = f"c{self._z3_ast_hash(constraint.ast)}"
                 if name not in already_tracked:
                     s.assert_and_track(constraint, name)
                     already_tracked.add(name)
